@@ -334,13 +334,13 @@ impl TxInputsBuilder {
          * To avoid incorrect redeemer tag we also set the `tag` field to `spend`.
          */
         let tag = RedeemerTag::new_spend();
-        let script_hash_index_map: BTreeMap<&TransactionInput, BigNum> = self
+        let script_hash_index_map: BTreeMap<&TransactionInput, (&ScriptHash, BigNum)> = self
             .inputs
             .values()
             .enumerate()
             .fold(BTreeMap::new(), |mut m, (i, (tx_in, hash_option))| {
-                if hash_option.is_some() {
-                    m.insert(&tx_in.input, (i as u64).into());
+                if let Some(script_hash) = hash_option {
+                    m.insert(&tx_in.input, (script_hash, (i as u64).into()));
                 }
                 m
             });
@@ -348,11 +348,15 @@ impl TxInputsBuilder {
         self.required_witnesses
             .scripts
             .iter()
-            .flat_map(|x| x.1)
-            .for_each(|(hash, option)| {
+            .flat_map(|(script_hash, inputs)| inputs.iter().map(move |(input, wit)| (script_hash, input, wit)))
+            .for_each(|(script_hash, input, option)| {
                 if let Some(ScriptWitnessType::PlutusScriptWitness(s)) = option {
-                    if let Some(idx) = script_hash_index_map.get(&hash) {
-                        scripts.add(&s.clone_with_redeemer_index_and_tag(&idx, &tag));
+                    // an input that was added again under another script hash keeps its earlier registration in
+                    // `required_witnesses`: only the witness of the script the input is locked by now gets a redeemer
+                    if let Some((current_hash, idx)) = script_hash_index_map.get(&input) {
+                        if *current_hash == script_hash {
+                            scripts.add(&s.clone_with_redeemer_index_and_tag(&idx, &tag));
+                        }
                     }
                 }
             });
